@@ -58,7 +58,7 @@ def attr_text(f):
 def doc_text(doc, indent='        '):
     """only ONE ordinary blank after `///` belongs to the comment syntax: a line that starts with a tab or a no-break space is written
     without it and keeps that character in the documented text"""
-    if not doc: return ''
+    if doc is None: return ''
     out = ''
     for l in doc.split('\n'):
         if not l: out += '%s///\n' % indent
@@ -107,7 +107,7 @@ def field_ref(f, positional_default=False):
             kn = kebab(f.name)
             names = ["short('%s')" % kn] if len(kn) == 1 else ['long(%s)' % lit(kn)]
         e = '::bpaf::' + '.'.join(names + envs)
-        if f.doc: e += '.help(%s)' % lit(f.doc)
+        if f.doc is not None: e += '.help(%s)' % lit(f.doc)
         if cons == 'switch' or (cons is None and is_bool(f.ty)):
             e += '.switch()'
         elif cons and cons.startswith('req_flag'):
@@ -120,7 +120,7 @@ def field_ref(f, positional_default=False):
             e += '.argument::<%s>(%s)' % (ty, meta)
     else:
         e = '::bpaf::positional::<%s>(%s)' % (ty, meta)
-        if f.doc: e += '.help(%s)' % lit(f.doc)
+        if f.doc is not None: e += '.help(%s)' % lit(f.doc)
     parse_like = any(re.match(r'^(optional|many|some|map|parse|collect|count|last)\b', p) for p in f.post)
     if not parse_like and not (cons or '').startswith('external'):
         if shape == 'Option': e += '.optional()'
@@ -251,7 +251,8 @@ class Member:
         for t in self.top:
             m = re.match(r'^group_help\((.*)\)$', t)
             if m: return m.group(1)
-        return lit(self.doc) if self.doc else None
+        # a doc comment that is one blank line is still a doc comment: the title is the empty string
+        return lit(self.doc) if self.doc is not None else None
 
     def reference(self):
         is_opts = any(t == 'options' or t.startswith('options(') for t in self.top)
@@ -376,6 +377,8 @@ def base_family():
     # a version asked for on a subcommand is the subcommand's: command mode passes it on like options mode does
     M.append(Member('b_cmd_version', 'struct', 'Fmt', top=['command', 'version'], doc='format it', fields=[F('check', 'bool')]))
     M.append(Member('b_cmd_version_lit', 'struct', 'Lint', top=['command("lint")', 'version("1.2.3-lint")', 'short(\'l\')'], fields=[F('fix', 'bool')]))
+    # a doc comment consisting of a single blank `///` line is a (blank) help text, not "no help"
+    M.append(Member('b_docs_single_blank', 'struct', 'Blank', top=[], doc='', fields=[F('alpha', 'bool', doc=''), F('beta', 'u32', doc='real help')]))
     # constant consumers: pure(v) is the field's value as it is, pure_with(f) gets the implicit optional()/many() of its shape
     M.append(Member('b_pure_consumers', 'struct', 'Consts', top=['options'], fields=[
         F('seed', 'Option<u32>', cons='pure_with(|| Ok::<_, String>(Default::default()))'), F('extra', 'Vec<u32>', cons='pure_with(|| Ok::<_, String>(Default::default()))'),
